@@ -144,6 +144,8 @@ class Gen:
         self.entry(2, sid=sid, data=text, cmid=cmid, addr=addr)
         if s is not None:
             s["cmid"] = cmid
+            if addr:
+                s["addr"] = addr
 
     def delete(self, sid):
         self.entry(1, sid=sid, data=self.rng.choice(["bye", "", "Ping timeout (10m0s)", ":x y"]))
@@ -328,6 +330,36 @@ class Gen:
         if r.random() < 0.7:
             self.line(op, "MODE %s -i-k %s" % (c, key))
         self.count("restricted_join")
+        return True
+
+    def ban_evasion(self):
+        """a channel operator bans a session by its session host (`*!*@robust/0x<id>`), which also bans the remote
+        address that session last used; the banned user comes back as a *new* session from the same address and
+        tries to JOIN: only the address-resolved half of the ban can stop it"""
+        r = self.rng
+        cands = [(c, sid) for c, sid in self.chanop.items() if sid in self.sessions and "," not in c]
+        victims = [sid for sid, x in self.sessions.items() if x.get("registered") and not x.get("server") and x.get("addr")]
+        if not cands or not victims:
+            return False
+        c, op = r.choice(cands)
+        j = r.choice([x for x in victims if x != op] or victims)
+        a = self.sessions[j]["addr"]
+        if r.random() < 0.3:
+            self.line(op, "MODE %s +b *!*@robust/0x%x" % (c, j), addr="")     # set twice: the second is a duplicate
+        self.line(op, "MODE %s +b *!*@robust/0x%x" % (c, j), addr="")
+        k = self.create()
+        nick = self.nick()
+        self.line(k, "NICK " + nick, addr=a)
+        self.line(k, "USER u 0 * :Real " + nick, addr=a)
+        self.sessions[k].update(registered=True, nick=nick, oper=False)
+        if nick and nick not in self.used_nicks:
+            self.used_nicks.append(nick)
+        self.line(k, "JOIN " + c, addr=r.choice([a, a, ""]))
+        self.line(r.choice([op, k]), "NAMES " + c, addr="")
+        if r.random() < 0.5:
+            self.line(op, "MODE %s -b *!*@robust/0x%x" % (c, j), addr="")
+            self.line(k, "JOIN " + c, addr=a)
+        self.count("ban_evasion")
         return True
 
     def stale_invite(self):
@@ -689,6 +721,8 @@ class Gen:
             elif x < 0.595 and self.services_leave():
                 pass
             elif x < 0.61 and self.oper_invite():
+                pass
+            elif x < 0.625 and self.ban_evasion():
                 pass
             else:
                 self.client_line(r.choice(live))
